@@ -353,7 +353,8 @@ void ar_install(void) { ar_init(); cbor_set_allocs(ar_malloc, ar_realloc, ar_fre
 
 /* ======================================================================= tsafe */
 __thread uint64_t TS_allocs, TS_frees;
-static void* ts_malloc(size_t n) { TS_allocs++; return malloc(n); }
-static void* ts_realloc(void* p, size_t n) { if (!p) TS_allocs++; return realloc(p, n); }
+#define TS_CAP ((size_t)1 << 20) /* deterministic refusal of huge declared counts */
+static void* ts_malloc(size_t n) { if (n > TS_CAP) return NULL; TS_allocs++; return malloc(n); }
+static void* ts_realloc(void* p, size_t n) { if (n > TS_CAP) return NULL; if (!p) TS_allocs++; return realloc(p, n); }
 static void ts_free(void* p) { if (p) TS_frees++; free(p); }
 void ts_install(void) { cbor_set_allocs(ts_malloc, ts_realloc, ts_free); }
